@@ -132,6 +132,8 @@ class TocFetcher:
         logger.debug('[%d]: Start fetching...', self.port)
         # Register callback in this class for the port
         self.cf.add_port_callback(self.port, self._new_packet_cb)
+        # Stop fetching if the link is closed, a new fetcher is used next time
+        self.cf.disconnected.add_callback(self._disconnected_cb)
 
         # Request the TOC CRC
         self.state = GET_TOC_INFO
@@ -144,9 +146,21 @@ class TocFetcher:
             pk.data = (CMD_TOC_INFO,)
             self.cf.send_packet(pk, expected_reply=(CMD_TOC_INFO,))
 
+    def _remove_callbacks(self):
+        self.cf.remove_port_callback(self.port, self._new_packet_cb)
+        try:
+            self.cf.disconnected.remove_callback(self._disconnected_cb)
+        except ValueError:
+            pass
+
+    def _disconnected_cb(self, link_uri):
+        """The link was closed before the fetching finished, abort"""
+        self.state = IDLE
+        self._remove_callbacks()
+
     def _toc_fetch_finished(self):
         """Callback for when the TOC fetching is finished"""
-        self.cf.remove_port_callback(self.port, self._new_packet_cb)
+        self._remove_callbacks()
         logger.debug('[%d]: Done!', self.port)
         self.finished_callback()
 
